@@ -322,3 +322,58 @@ def reify_forms():
     t.append(T('reify_pair_field', [FRESH(['x', 'y', 'z'], EQ(z, ('pair', x, y)), EQ(q, L(P(0), z)), NE(y, P(1)))], 'multiset'))
     t.append(T('reify_pair_top', [FRESH(['x', 'y'], EQ(q, ('pair', x, y)), NE(x, P(0)), EQ(y, L(x)))], 'multiset'))
     return t
+
+
+def compounds():
+    """Tuple compounds `(a, b)` (the crate's own compound object) in eq / diseq / reification."""
+    t = []
+    PR = lambda a, b: ('pair', a, b)
+    t.append(T('pair_unify_fields', [FRESH(['x', 'y', 'z'], EQ(z, PR(x, P(0))), EQ(z, PR(P(1), y)), EQ(q, L(x, y)))], 'multiset'))
+    t.append(T('pair_vs_list', [FRESH(['z'], EQ(z, PR(P(0), P(1))), OP('conde', [EQ(z, L(P(0), P(1))), EQ(q, N(1))], [EQ(z, P(0)), EQ(q, N(2))], [EQ(z, PR(P(0), P(1))), EQ(q, N(3))]))], 'multiset'))
+    t.append(T('pair_deep_walk_second', [FRESH(['x', 'y'], EQ(q, PR(P(0), x)), EQ(x, L(y, P(1))), EQ(y, P(2)))], 'sequence'))
+    t.append(T('pair_deep_walk_first', [FRESH(['x', 'y'], EQ(q, PR(x, P(0))), EQ(x, L(P(1), y)), EQ(y, L(P(2))))], 'sequence'))
+    t.append(T('pair_nested_pair', [FRESH(['x', 'y', 'z'], EQ(z, PR(y, P(0))), EQ(q, PR(x, z)), EQ(x, P(1)), EQ(y, L(x)))], 'sequence'))
+    t.append(T('pair_occurs', [FRESH(['x'], OP('conde', [EQ(x, PR(P(0), x)), EQ(q, N(1))], [EQ(x, PR(x, x)), EQ(q, N(2))], [EQ(q, N(3))]))], 'multiset'))
+    t.append(T('pair_diseq', [FRESH(['x', 'y', 'z'], EQ(q, L(x, y)), EQ(z, PR(x, y)), NE(z, PR(P(0), P(1))), EQ(x, P(2)))], 'multiset'))
+    t.append(T('pair_diseq_ground', [FRESH(['z'], EQ(z, PR(P(0), P(1))), NE(z, PR(P(2), P(1))), EQ(q, P(0)))], 'multiset'))
+    t.append(T('pair_in_list_reify', [FRESH(['x', 'y', 'z'], EQ(z, PR(x, y)), EQ(q, L(z, x)), EQ(y, P(0)))], 'multiset'))
+    return t
+
+
+def INFD(target, values):
+    return ('fd', 'infd', target, list(values))
+
+
+def INFDR(target, lo, hi):
+    return ('fd', 'infdrange', target, (lo, hi))
+
+
+def finite_domains():
+    """CLP(FD) programs: concrete small domains (negative, mixed-sign, sparse), symbolic constants,
+    aliasing of operands, constraints posted before / after domains and bindings."""
+    t = []
+    xyz = L(x, y, z)
+    t.append(T('fd_plus_all', [FRESH(['x', 'y', 'z'], EQ(q, xyz), INFDR(xyz, -1, 2), REL('plusfd', x, y, z))], 'multiset', 80))
+    t.append(T('fd_plus_const', [FRESH(['x', 'y'], EQ(q, L(x, y)), INFDR(L(x, y), -2, 2), REL('plusfd', x, P(0), y))], 'multiset', 40))
+    t.append(T('fd_plus_alias_xx', [FRESH(['x', 'y'], EQ(q, L(x, y)), INFDR(L(x, y), -2, 3), REL('plusfd', x, x, y))], 'multiset', 40))
+    t.append(T('fd_plus_alias_xxx', [FRESH(['x'], EQ(q, x), INFDR(x, -2, 2), REL('plusfd', x, x, x))], 'multiset', 40))
+    t.append(T('fd_minus', [FRESH(['x', 'y', 'z'], EQ(q, xyz), INFD(L(x, y), [-2, 0, 3]), INFDR(z, -3, 3), REL('minusfd', x, y, z))], 'multiset', 60))
+    t.append(T('fd_times_mixed', [FRESH(['x', 'y', 'z'], EQ(q, xyz), INFDR(L(x, y), -2, 2), INFDR(z, -4, 4), REL('timesfd', x, y, z))], 'multiset', 80))
+    t.append(T('fd_times_const_zero', [FRESH(['x', 'y'], EQ(q, L(x, y)), INFDR(L(x, y), 0, 3), REL('timesfd', x, P(0), y))], 'multiset', 40))
+    t.append(T('fd_times_label_second_first', [FRESH(['x', 'y', 'z'], EQ(q, L(y, x)), INFD(x, [0, 2, 5]), INFD(y, [0, 1]), INFDR(z, 0, 10), REL('timesfd', x, y, z))], 'multiset', 40))
+    t.append(T('fd_lte_vars', [FRESH(['x', 'y'], EQ(q, L(x, y)), INFDR(x, -2, 1), INFD(y, [-1, 0, 3]), REL('ltefd', x, y))], 'multiset', 40))
+    t.append(T('fd_lte_const', [FRESH(['x'], EQ(q, x), INFDR(x, -3, 3), REL('ltefd', x, P(0)), REL('ltefd', P(1), x))], 'multiset', 40))
+    t.append(T('fd_lte_alias_left', [FRESH(['x', 'y'], EQ(q, L(x, y)), INFDR(L(x, y), -3, 3), EQ(x, y), REL('ltefd', x, P(0)))], 'multiset', 40))
+    t.append(T('fd_lte_alias_other_dir', [FRESH(['x', 'y'], EQ(q, L(x, y)), INFDR(L(x, y), -3, 3), EQ(y, x), REL('ltefd', x, P(0)))], 'multiset', 40))
+    t.append(T('fd_lte_before_domain', [FRESH(['x', 'y'], EQ(q, L(x, y)), REL('ltefd', x, y), INFDR(L(x, y), -1, 1))], 'multiset', 40))
+    t.append(T('fd_lte_then_unify', [FRESH(['x', 'y'], EQ(q, L(x, y)), INFDR(L(x, y), -1, 2), REL('ltefd', x, y), EQ(x, y))], 'multiset', 40))
+    t.append(T('fd_lt', [FRESH(['x', 'y'], EQ(q, L(x, y)), INFDR(L(x, y), 0, 3), REL('ltfd', x, y), REL('ltfd', y, P(0)))], 'multiset', 40))
+    t.append(T('fd_diseq', [FRESH(['x', 'y'], EQ(q, L(x, y)), INFD(L(x, y), [-1, 0, 2]), REL('diseqfd', x, y), REL('diseqfd', x, P(0)))], 'multiset', 40))
+    t.append(T('fd_distinct', [FRESH(['x', 'y', 'z'], EQ(q, xyz), INFDR(xyz, 0, 2), REL('distinctfd', xyz), REL('ltefd', x, P(0)))], 'multiset', 40))
+    t.append(T('fd_distinct_bind_desc', [FRESH(['x', 'y', 'z'], EQ(q, xyz), REL('distinctfd', xyz), EQ(x, N(5)), EQ(y, N(3)), INFD(z, [3, 5, 7]))], 'multiset', 40))
+    t.append(T('fd_hidden_var', [FRESH(['x', 'y'], EQ(q, x), INFDR(L(x, y), 0, 2), REL('ltfd', y, x))], 'multiset', 40))
+    t.append(T('fd_domain_intersection', [FRESH(['x'], EQ(q, x), INFDR(x, -3, 1), INFD(x, [-4, -1, 1, 2]), REL('diseqfd', x, P(0)))], 'multiset', 40))
+    t.append(T('fd_eq_number', [FRESH(['x', 'y'], EQ(q, L(x, y)), INFDR(L(x, y), -2, 2), REL('plusfd', x, y, N(1)), EQ(x, P(0)))], 'multiset', 40))
+    t.append(T('fd_conde_domains', [FRESH(['x'], EQ(q, x), OP('conde', INFDR(x, 0, 1), INFD(x, [1, 5])), REL('ltefd', P(0), x))], 'multiset', 40))
+    t.append(T('fd_list_query', [FRESH(['x', 'y'], EQ(q, L(L(x), y)), INFDR(L(x, y), 0, 1), REL('diseqfd', x, y))], 'multiset', 40))
+    return t
